@@ -138,6 +138,15 @@ func desc(v ssa.Value, depth int) string {
 		return "…"
 	}
 	d := depth - 1
+	if call, ok := v.(*ssa.Call); ok && theE1 != nil {
+		if callee, args := newCallee(call); callee != nil {
+			if rv := theE1.helperValue(call); rv != nil {
+				out := ""
+				inFrame(callee, args, func() { out = desc(rv, depth) })
+				return out
+			}
+		}
+	}
 	switch x := v.(type) {
 	case *ssa.Parameter:
 		if a, ok := paramSubst[x]; ok && a != x {
@@ -277,6 +286,8 @@ func fieldName(t types.Type, i int) string {
 type Atom struct {
 	Str string // canonical text of the positive form
 	Neg bool   // the SSA condition equals !Str
+	// Swap: for a strict comparison lt(a, b), the text of lt(b, a) — if that is known to hold, Str is false
+	Swap string
 }
 
 var cmpMethods = map[string]string{"LT": "LT", "GT": "GT", "LTE": "LTE", "GTE": "GTE"}
@@ -327,13 +338,13 @@ func condAtom(v ssa.Value) Atom {
 			}
 			return a
 		case token.LSS:
-			return Atom{Str: "lt(" + desc(l, maxDepth) + ", " + desc(r, maxDepth) + ")", Neg: neg}
+			return Atom{Str: "lt(" + desc(l, maxDepth) + ", " + desc(r, maxDepth) + ")", Neg: neg, Swap: "lt(" + desc(r, maxDepth) + ", " + desc(l, maxDepth) + ")"}
 		case token.GEQ:
-			return Atom{Str: "lt(" + desc(l, maxDepth) + ", " + desc(r, maxDepth) + ")", Neg: !neg}
+			return Atom{Str: "lt(" + desc(l, maxDepth) + ", " + desc(r, maxDepth) + ")", Neg: !neg, Swap: "lt(" + desc(r, maxDepth) + ", " + desc(l, maxDepth) + ")"}
 		case token.GTR:
-			return Atom{Str: "lt(" + desc(r, maxDepth) + ", " + desc(l, maxDepth) + ")", Neg: neg}
+			return Atom{Str: "lt(" + desc(r, maxDepth) + ", " + desc(l, maxDepth) + ")", Neg: neg, Swap: "lt(" + desc(l, maxDepth) + ", " + desc(r, maxDepth) + ")"}
 		case token.LEQ:
-			return Atom{Str: "lt(" + desc(r, maxDepth) + ", " + desc(l, maxDepth) + ")", Neg: !neg}
+			return Atom{Str: "lt(" + desc(r, maxDepth) + ", " + desc(l, maxDepth) + ")", Neg: !neg, Swap: "lt(" + desc(l, maxDepth) + ", " + desc(r, maxDepth) + ")"}
 		}
 	case *ssa.Call:
 		if f := x.Call.StaticCallee(); f != nil && f.Signature.Recv() != nil && len(x.Call.Args) == 2 {
@@ -342,13 +353,13 @@ func condAtom(v ssa.Value) Atom {
 				a, b := desc(x.Call.Args[0], maxDepth), desc(x.Call.Args[1], maxDepth)
 				switch f.Name() {
 				case "LT":
-					return Atom{Str: "LT<" + rt + ">(" + a + ", " + b + ")", Neg: neg}
+					return Atom{Str: "LT<" + rt + ">(" + a + ", " + b + ")", Neg: neg, Swap: "LT<" + rt + ">(" + b + ", " + a + ")"}
 				case "GTE":
-					return Atom{Str: "LT<" + rt + ">(" + a + ", " + b + ")", Neg: !neg}
+					return Atom{Str: "LT<" + rt + ">(" + a + ", " + b + ")", Neg: !neg, Swap: "LT<" + rt + ">(" + b + ", " + a + ")"}
 				case "GT":
-					return Atom{Str: "LT<" + rt + ">(" + b + ", " + a + ")", Neg: neg}
+					return Atom{Str: "LT<" + rt + ">(" + b + ", " + a + ")", Neg: neg, Swap: "LT<" + rt + ">(" + a + ", " + b + ")"}
 				case "LTE":
-					return Atom{Str: "LT<" + rt + ">(" + b + ", " + a + ")", Neg: !neg}
+					return Atom{Str: "LT<" + rt + ">(" + b + ", " + a + ")", Neg: !neg, Swap: "LT<" + rt + ">(" + a + ", " + b + ")"}
 				}
 			}
 		}
